@@ -19,6 +19,16 @@ type directedProg struct {
 	fns   []directedFn
 	// functions that are not exported, for the debug-information clause
 	others []directedOther
+	// the package as several files (text without the package clause; {{SUB}} is
+	// the import path of the sub-package) instead of src, and a package of its own
+	files  []srcFile
+	sub    string    // directory of the sub-package
+	subSrc []srcFile // its files, complete
+	subRst string    // statements restoring its package state (native side)
+	deploy bool      // the source has _deploy(data any, isUpdate bool)
+	// a program inside the dialect the compiler is expected to get right: judged
+	// under the signatures of the generated programs
+	regress bool
 }
 
 type directedOther struct {
@@ -31,12 +41,34 @@ type directedFn struct {
 	params []ty
 	ret    ty
 	args   [][]argSpec // nil: integers 0,1,2,5 for every parameter
+	pre    string      // "deploy" / "update": every call is repeated after _deploy
 }
 
 func (d directedProg) program(idx int) *program {
 	p := &program{idx: idx, pkg: fmt.Sprintf("d%d", idx), directed: d.name, feat: []string{"directed:" + d.name}}
 	p.src = "package " + p.pkg + "\n\n" + strings.TrimLeft(d.src, "\n")
 	p.reset = fmt.Sprintf("package %s\n\nfunc ResetGlobals() {\n%s\n}\n", p.pkg, d.reset)
+	p.regress, p.deploy = d.regress, d.deploy
+	if d.deploy {
+		p.reset2 = fmt.Sprintf("package %s\n\nfunc RunDeploy(isUpdate bool) {\n\t_deploy(nil, isUpdate)\n}\n", p.pkg)
+		p.feat = append(p.feat, "deploy-function")
+	}
+	if d.files != nil {
+		subPath := modPath + "/" + p.pkg + "/" + d.sub
+		for _, f := range d.files {
+			p.files = append(p.files, srcFile{Name: f.Name, Text: "package " + p.pkg + "\n\n" + strings.ReplaceAll(strings.TrimLeft(f.Text, "\n"), "{{SUB}}", subPath)})
+		}
+		p.dirCompile = true
+		p.layout = fmt.Sprintf("layout:%d-files", len(p.files))
+		if d.sub != "" {
+			p.layout += "+package"
+			pkgName := strings.ToLower(d.sub)
+			p.aux = &auxPkg{name: d.sub, files: d.subSrc, native: fmt.Sprintf("package %s\n\nfunc ResetGlobals() {\n%s\n}\n", pkgName, d.subRst)}
+			p.reset = fmt.Sprintf("package %s\n\nimport %s %q\n\nfunc ResetGlobals() {\n\t%s.ResetGlobals()\n%s\n}\n", p.pkg, pkgName, subPath, pkgName, d.reset)
+		}
+		p.feat = append(p.feat, p.layout)
+		p.joinSrc()
+	}
 	for _, df := range d.fns {
 		f := &fn{name: df.name, exported: true, rets: []ty{df.ret}}
 		if df.ret == tVoid {
@@ -59,6 +91,11 @@ func (d directedProg) program(idx int) *program {
 		}
 		for _, a := range args {
 			p.calls = append(p.calls, callSpec{Fn: df.name, Args: a})
+		}
+		if df.pre != "" {
+			for _, a := range args {
+				p.calls = append(p.calls, callSpec{Fn: df.name, Args: a, Pre: df.pre})
+			}
 		}
 	}
 	for _, o := range d.others {
@@ -509,6 +546,41 @@ func F(a0 int) int {
 		r += 100
 	}
 	return r
+}
+`},
+	{name: "composite-literal-elements-evaluated-right-to-left", reset: "\tglog = 0", fns: []directedFn{
+		{name: "F", params: []ty{tInt}, ret: tInt}, {name: "G", params: []ty{tInt}, ret: tInt},
+		{name: "H", params: []ty{tInt}, ret: tInt}, {name: "I", params: []ty{tInt}, ret: tInt}}, src: `
+var glog = 0
+
+type S struct {
+	A int
+	B int
+}
+
+func note(d int) int {
+	glog = glog*10 + d
+	return d
+}
+
+func F(a0 int) int {
+	s := []int{note(1), note(2), note(3)}
+	return glog*10 + s[0] + a0
+}
+
+func G(a0 int) int {
+	s := [2]int{note(1), note(2)}
+	return glog*10 + s[0] + a0
+}
+
+func H(a0 int) int {
+	s := &S{A: note(1), B: note(2)}
+	return glog*10 + s.A + a0
+}
+
+func I(a0 int) int {
+	m := map[int]int{note(1): note(2), note(3): note(4)}
+	return glog*10 + len(m) + a0
 }
 `},
 }
